@@ -24,6 +24,7 @@ import (
 
 // ---------------------------------------------------------------- reader
 
+// Path keys used by the harness: "dir" (default language id) or "dir#langid".
 type Reader struct {
 	Order   []string
 	Ctxs    map[string]*decoder.PathContext
@@ -31,21 +32,36 @@ type Reader struct {
 	LangID  string
 }
 
+func (r *Reader) toPath(key string) lang.Path {
+	if i := strings.Index(key, "#"); i >= 0 {
+		return lang.Path{Path: key[:i], LanguageID: key[i+1:]}
+	}
+	return lang.Path{Path: key, LanguageID: r.LangID}
+}
+
+func (r *Reader) keyOf(p lang.Path) string {
+	if p.LanguageID == r.LangID || p.LanguageID == "" {
+		return p.Path
+	}
+	return p.Path + "#" + p.LanguageID
+}
+
 func (r *Reader) Paths(ctx context.Context) []lang.Path {
 	ps := make([]lang.Path, 0, len(r.Order))
 	for _, p := range r.Order {
-		ps = append(ps, lang.Path{Path: p, LanguageID: r.LangID})
+		ps = append(ps, r.toPath(p))
 	}
 	return ps
 }
 
 func (r *Reader) PathContext(p lang.Path) (*decoder.PathContext, error) {
-	if r.Failing[p.Path] {
-		return nil, fmt.Errorf("path %q cannot be read", p.Path)
+	k := r.keyOf(p)
+	if r.Failing[k] {
+		return nil, fmt.Errorf("path %q cannot be read", k)
 	}
-	c, ok := r.Ctxs[p.Path]
+	c, ok := r.Ctxs[k]
 	if !ok {
-		return nil, fmt.Errorf("path %q not found", p.Path)
+		return nil, fmt.Errorf("path %q not found", k)
 	}
 	return c, nil
 }
@@ -83,6 +99,12 @@ func newEnv(w *World, path string) *Env {
 	r := &Reader{Ctxs: map[string]*decoder.PathContext{}, Failing: map[string]bool{}, LangID: "tf"}
 	e := &Env{R: r}
 	e.AddPath(w, path)
+	for _, pk := range sortedPeerKeys(w) {
+		e.AddPath(w.Peers[pk], pk)
+	}
+	for _, u := range w.Unreadable {
+		r.Failing[u] = true
+	}
 	e.Dec = decoder.NewDecoder(r)
 	e.Dec.SetContext(decoder.NewDecoderContext())
 	return e
@@ -107,7 +129,16 @@ func (e *Env) AddPath(w *World, path string) {
 	sort.Strings(e.R.Order)
 }
 
-func (e *Env) P(path string) lang.Path { return lang.Path{Path: path, LanguageID: e.R.LangID} }
+func sortedPeerKeys(w *World) []string {
+	ks := []string{}
+	for k := range w.Peers {
+		ks = append(ks, k)
+	}
+	sort.Strings(ks)
+	return ks
+}
+
+func (e *Env) P(path string) lang.Path { return e.R.toPath(path) }
 
 // SetFile replaces the content of one file; returns false when the parser yields no file.
 func (e *Env) SetFile(path, name string, src []byte) bool {
@@ -316,6 +347,7 @@ func (e *Env) Recollect(w *watch, path string) (tOut, oOut Outcome) {
 var resultOpts = canonOpts{
 	SkipFields: map[string]bool{
 		"DirectOrigin.TargetRange": true, // supplied by the caller through the schema
+		"Target.Range":             true, // schema.Target.Range, likewise
 	},
 	MultisetTypes: map[string]bool{
 		"*hcl.Diagnostic": true,
